@@ -223,6 +223,8 @@ var pureRecv = map[string]bool{
 	"HashFunc": true, "Public": true, "IsPrivate": true, "HmacKey": true, "Name": true,
 }
 
+var mutIfaceMethods = map[string]bool{"Write": true, "WriteString": true, "WriteByte": true, "Reset": true, "Read": true, "Close": true, "Absorb": true, "Squeeze": true}
+
 // mutArg lists (callee, operand index in CallCommon.Args) pairs that write
 // through the operand. Operand indices count CallCommon.Args, i.e. the
 // receiver of a static method call is operand 0.
@@ -250,7 +252,8 @@ func (b *Builder) MayMutateOperand(c *ssa.CallCommon, i int) bool {
 	}
 	if c.IsInvoke() {
 		if i == -1 {
-			return !pureRecv[c.Method.Name()]
+			// interface receivers: only the stateful stream-like methods mutate (hash.Hash, io.Writer/Reader, strings.Builder-like)
+			return mutIfaceMethods[c.Method.Name()]
 		}
 		// interface methods: hash.Hash.Sum appends to its argument
 		if c.Method.Name() == "Sum" || c.Method.Name() == "Read" {
